@@ -40,4 +40,11 @@ AddPart(v, t, k) == 4 + BatchAcc(v, t.parts[k])
                     + (IF Flexible(v) /\ CountTags THEN 1 ELSE 0)                               \* the partition's tagged-field byte
 Accounted(v, cid, txn, topics) ==
   Base(cid, txn) + Sum([i \in 1..Len(topics) |-> Sum([k \in 1..Len(topics[i].parts) |-> AddPart(v, topics[i], k)], Len(topics[i].parts))], Len(topics))
+(* the first request on a connection is packed before the produce version is known (Unknown): every batch is charged     *)
+(* its largest form and a topic the larger of its non-flexible name form and the topic-id form                             *)
+Max2(a, b) == IF a > b THEN a ELSE b
+AddPartUnknown(t, k) == 4 + Max2(4 + t.parts[k], Uvarlen(t.parts[k] + 1) + t.parts[k])
+                        + (IF k = 1 THEN (IF CountTags THEN Max2(2 + t.name + 4, 16 + 1 + 1) ELSE 2 + t.name + 4) ELSE 0)
+AccountedUnknown(cid, txn, topics) ==
+  Base(cid, txn) + Sum([i \in 1..Len(topics) |-> Sum([k \in 1..Len(topics[i].parts) |-> AddPartUnknown(topics[i], k)], Len(topics[i].parts))], Len(topics))
 =============================================================================
